@@ -120,9 +120,10 @@ def gen_graph_case(rng, thorough):
     # interleavings: 2-3 open traversal iterators (ancestors / descendants mostly), stepped in every order
     inter = []
     trav = [i for i, q in enumerate(queries[:nq]) if q[1] in 'AD']
+    near = [i for i, q in enumerate(queries[:nq]) if q[1] in 'PC']        # parents / children are lazy iterators too
     for _ in range(3 if not thorough else 8):
         k = rng.choice([2, 2, 3])
-        opened = [rng.choice(trav) for _ in range(k)]
+        opened = [rng.choice(near if rng.random() < 0.3 else trav) for _ in range(k)]
         if rng.random() < 0.4:
             opened[1] = opened[0]              # the same query twice
         counts = [rng.randint(2, 4) for _ in opened]
@@ -157,8 +158,8 @@ def run(chk):
     chk.traces = chk.evaluations
     chk.extra['footprint_changes_diagnostic'] = sum(1 for o in obs if o.get('diag'))
     chk.rule = ('random DAGs (half of them diamond ladders: nodes reachable over two routes) through the three real factories, each graph built by a factory instance that has built other graphs before (a primer graph whose last edge shares its subject with the first edge of this graph): (a) 40 histories per graph [a query, a traversal consumed '
-                '0-2 items and abandoned, then a query whose result must equal the result on a fresh graph] over all traversals / predicates / leaf / membership / iteration; (b) 2-3 '
-                'simultaneously open ancestor / descendant iterators (the same query twice in 40%), ALL interleavings of 2-4 next() calls each when <= 60 (thorough: <= 1680), else a random '
+                '0-2 items, then a query whose result must equal the result on a fresh graph, then (every second history) the half-consumed traversal is resumed and must finish its solo sequence] over all traversals / predicates / leaf / membership / iteration; (b) 2-3 '
+                'simultaneously open ancestor / descendant (30%: parent / child) iterators (the same query twice in 40%), ALL interleavings of 2-4 next() calls each when <= 60 (thorough: <= 1680), else a random '
                 'sample: each iterator must yield exactly its solo sequence, and the yields are compared with the model in Coq (no repeats, right multiset); (c) digest of the graph '
                 'object before/after (diagnostic); (d) 8 reader threads x 150 random queries against precomputed answers on 30% of the graphs; (e) Obographs documents A,B,A,.. '
                 'through the shared default factories of both loaders vs fresh factories (incl. a slim document with dangling edges loaded before and after the full one), HPOA files A,B,A through one loader instance; HPOA files whose frequencies depend on the '
